@@ -16,7 +16,7 @@ from ..flow import Flow, emptiness_test_kind
 from ..alg import Sym, Unsupported, _binop
 
 GEO = "typhon/geographical.py"
-EXPECT = {"C06.args": 3, "C06.units": 8, "C06.scale": 4, "C06.deshuffle": 2, "C06.pairs": 4, "C06.empty": 1, "C06.metric": 2, "C06.complete": 3, "C06.pure": 3, "C06.support": 1}
+EXPECT = {"C06.pairing": 1, "C06.args": 3, "C06.units": 8, "C06.scale": 4, "C06.deshuffle": 2, "C06.pairs": 4, "C06.empty": 1, "C06.metric": 1 + 2, "C06.complete": 3, "C06.pure": 3, "C06.support": 1}
 
 SI_KM = {  # unit -> (kilometres per unit, accepted spellings)
     "cm": (1e-5, {"cm", "centimeter", "centimeters", "centimetre", "centimetres"}),
@@ -269,6 +269,51 @@ def rule_scale(ctx):
                "returned distance = tree distance * %s; radius factor * distance factor = %s" % (df, sp.simplify(rf * df)),
                "1 - distances come back in kilometres, the unit the radius was converted from", node=f.node, func=f)
         ctx.models.append({"rule": "C06.scale", "identity": metric, "cases": 2})
+
+
+def rule_pairing(ctx):
+    """column k of the pairs and element k of the distances belong together: whatever re-orders or selects the columns of the pairs
+    (a sort for reproducibility, a mask) is applied to the distances with the same index"""
+    ctx.rule("C06.pairing", "T6", "pairs and distances are re-ordered / selected together")
+    f = ctx.func(GEO, "GeoIndex.query")
+    flow = Flow(f)
+    rets = [r_ for r_ in flow.stmts if isinstance(r_, ast.Return) and isinstance(r_.value, ast.Tuple) and len(r_.value.elts) == 2]
+    if not rets:
+        raise AnalysisError("query: no return of (pairs, distances)")
+    pname = dname = None
+    for r_ in rets:
+        a_, b_ = r_.value.elts
+        while isinstance(a_, ast.Subscript):
+            a_ = a_.value
+        while isinstance(b_, ast.Subscript):
+            b_ = b_.value
+        if isinstance(a_, ast.Name) and isinstance(b_, ast.Name):
+            pname, dname = a_.id, b_.id
+        elif isinstance(a_, ast.Name) and pname is None:
+            cand = [n_.id for n_ in ast.walk(r_.value.elts[1]) if isinstance(n_, ast.Name) and n_.id not in ("np", "numpy", "earth_radius", "self")
+                    and flow.defs(n_.id, r_) not in ([], ["param"])]
+            if cand:
+                pname, dname = a_.id, cand[0]
+    if pname is None:
+        raise AnalysisError("query: the names of the returned pairs / distances were not found")
+
+    def selections(name, columns):
+        out = []
+        for n_ in ast.walk(f.node):
+            if isinstance(n_, ast.Subscript) and isinstance(n_.ctx, ast.Load) and isinstance(n_.value, ast.Name) and n_.value.id == name:
+                sl = n_.slice
+                if columns:
+                    if isinstance(sl, ast.Tuple) and len(sl.elts) == 2 and isinstance(sl.elts[0], ast.Slice) and sl.elts[0].lower is None and sl.elts[0].upper is None \
+                            and sl.elts[0].step is None and not isinstance(sl.elts[1], (ast.Slice, ast.Constant)):
+                        # pairs[:, X] used as a whole (not pairs[0, :], a row)
+                        out.append(str(norm(flow.resolve(sl.elts[1], at=n_, depth=1))))
+                elif not isinstance(sl, (ast.Slice, ast.Constant, ast.Tuple)):
+                    out.append(str(norm(flow.resolve(sl, at=n_, depth=1))))
+        return sorted(set(out))
+    sp_, sd_ = selections(pname, True), selections(dname, False)
+    ctx.ob("GeoIndex.query.pairing", sp_ == sd_, "columns of %s selected by %s; elements of %s selected by %s" % (pname, sp_ or "nothing", dname, sd_ or "nothing"),
+           "the same index for both (or none): pair k keeps distance k", node=rets[-1], func=f,
+           witness=None if sp_ == sd_ else {"shuffle": True, "two neighbours of one query point": "listed with each other's distance"})
 
 
 def rule_deshuffle(ctx):
@@ -591,6 +636,20 @@ NARROW = ("float32", "float16", "half", "single", "int32", "int64", "int16", "'f
 
 def rule_metric(ctx):
     ctx.rule("C06.metric", "T3+T6", "minkowski -> cartesian metres from geocentric2cart(earth_radius, lat, lon); haversine -> radians of [lat, lon]")
+    # the default metric is the chord, whatever tree is used: self.metric under `metric is None` is the constant 'minkowski'
+    ini = ctx.func(GEO, "GeoIndex.__init__")
+    iflow = Flow(ini)
+    mp = [p_ for p_ in ini.params if p_ == "metric"]
+    stores = [st for st in iflow.stmts if isinstance(st, ast.Assign) and len(st.targets) == 1 and norm(st.targets[0]) == "self.metric"]
+    if mp and stores:
+        asm = {"metric is None": True, "metric is not None": False, "metric": False, "not metric": True, "metric == None": True}
+        live = [st for st in stores if iflow.live_under(st, asm)]
+        vals = sorted({str(norm(iflow.resolve_under(st.value, asm, at=st, stop=("tree_class",)))).replace('"', "'") for st in live})
+        ctx.ob("GeoIndex.__init__.default_metric", vals == ["'minkowski'"], "metric=None -> self.metric = %s" % vals,
+               "'minkowski' for every tree class: the default metric measures the chord; Ball and KD trees give the same result", node=stores[0], func=ini,
+               witness=None if vals == ["'minkowski'"] else {"GeoIndex(lat, lon).query(..., r='1000 km')": "pairs selected by the great-circle arc"})
+    else:
+        raise AnalysisError("GeoIndex.__init__: the store into self.metric was not found")
     f = ctx.func(GEO, "GeoIndex._to_metric")
     lat, lon = f.params[1], f.params[2]
     arms = {}
@@ -712,7 +771,7 @@ def rule_complete(ctx):
 
 
 def run(ctx):
-    for r in (rule_units, rule_scale, rule_deshuffle, rule_pairs, rule_empty, rule_metric, rule_complete, rule_support):
+    for r in (rule_units, rule_scale, rule_deshuffle, rule_pairing, rule_pairs, rule_empty, rule_metric, rule_complete, rule_support):
         ctx.attempt(r, ctx)
     from ..purity import rule_pure
     ctx.attempt(rule_pure, ctx, "C06.pure", [(GEO, "GeoIndex.query"), (GEO, "GeoIndex._to_metric"), (GEO, "to_kilometers")])
